@@ -64,6 +64,9 @@ type respClient struct {
 	MaxErrs int
 	// Logical: the exchange runs on a logical channel (set up with SETUP / PROTACK) instead of channel 0.
 	Logical bool
+	// Transients: offsets in the stream the server sends (from its first byte) at which one Read fails with a
+	// timeout error although the stream goes on.
+	Transients []int
 	// Render: the consumer uses what it receives the way a driver does: String() of every package and of every
 	// row / parameter value (direct calls: fmt would recover a panic).
 	Render bool
@@ -183,7 +186,12 @@ func runResp(cfg simrt.Config, d respDelivery, c respClient) *respResult {
 			deliver()
 		}
 	}
-	s.Net.Setup = func(cn *simrt.Conn) { cn.ReadSizes = c.ReadSizes }
+	s.Net.Setup = func(cn *simrt.Conn) {
+		cn.ReadSizes = c.ReadSizes
+		if len(c.Transients) > 0 && cn.ID == 0 {
+			cn.Transients = append([]int{}, c.Transients...)
+		}
+	}
 	if c.Twin {
 		p.NewSub = func(cn *simrt.Conn) *TDSPeer {
 			sp := SubPeer(s, cn)
